@@ -55,17 +55,18 @@ def run_object(arg):
                 vals.append((r / UNIT) * complex(math.cos(ph), math.sin(ph)))
         shape = (ns, 1, npx) if idx % 2 else (ns, npx, 1)
         raw = torch.tensor(np.array(vals).reshape(shape), dtype=torch.float32 if ot == "potential" else torch.complex64)
-        mask2d = torch.tensor(np.array(case["mask"], dtype=np.float32).reshape(shape[1:]) / UNIT)
+        mask3d = torch.tensor(np.array(case["mask"], dtype=np.float32).reshape(shape) / UNIT)      # one value per slice and pixel
         om = ObjectPixelated.from_uniform(num_slices=ns, slice_thicknesses=(2.0 if ns > 1 else None), obj_type=ot)
         om.constraints = {"apply_fov_mask": bool(cfg["fov"]), "identical_slices": bool(cfg["tie"]),
                           "positivity": bool(cfg["pos"]), "fix_potential_baseline": cfg["base"] == "on"}
         raw0 = raw.clone()
         results = []
-        m_arg = mask2d.expand(ns, -1, -1) if cfg["hasmask"] else None
+        m_arg = mask3d if cfg["hasmask"] else None
         results.append(("apply_hard_constraints", om.apply_hard_constraints(raw.clone(), mask=None if m_arg is None else m_arg.clone())))
         if cfg["hasmask"]:
             om._obj = torch.nn.Parameter(raw.clone(), requires_grad=True)
-            om.mask = mask2d[None].clone()
+            same = bool((mask3d == mask3d[:1]).all())
+            om.mask = (mask3d[:1] if (same and idx % 3 == 0) else mask3d).clone()     # a 2-D style (1, h, w) mask where the slices agree
             results.append(("obj", om.obj.detach()))
         lo = np.array([b[0] for b in case["b"]], dtype=np.float64).reshape(shape) / UNIT
         hi = np.array([b[1] for b in case["b"]], dtype=np.float64).reshape(shape) / UNIT
